@@ -907,17 +907,40 @@ fn c05_container_edits(t: &CeremonyTrace, prepared: &Prepared, genuine: &Ceremon
     }
 }
 
+/// A history of ceremonies. Consecutive traces that sign the same thing with the same keys share one
+/// signing run, as they did when the worker executed them (randomised schemes would otherwise give
+/// every element its own signature bytes).
+pub fn replay_seq(prop: &str, ts: &[&CeremonyTrace], rec: &mut RunRecord) -> Vec<Finding> {
+    let mut last = vec![];
+    let mut prepared: Option<(CeremonyTrace, Prepared)> = None;
+    for t in ts {
+        let reuse = match &prepared {
+            Some((p, _)) => p.keys == t.keys && p.body == t.body && p.signers == t.signers && p.resign == t.resign && p.builder_path == t.builder_path,
+            None => false,
+        };
+        if !reuse {
+            prepared = Some(((*t).clone(), prepare(t)));
+        }
+        let p = &prepared.as_ref().unwrap().1;
+        last = exec_prepared(t, p, rec, 0, 0, prop, None);
+    }
+    last
+}
+
 pub fn replay(prop: &str, t: &CeremonyTrace, rec: &mut RunRecord) -> Vec<Finding> {
     exec_and_fold(t, rec, 0, 0, prop)
 }
 
 pub fn minimise(prop: &str, clause: &str, t: &CeremonyTrace, history: Option<&CeremonyTrace>) -> (CeremonyTrace, bool) {
-    let still = |c: &CeremonyTrace| {
-        if let Some(h) = history {
-            let _ = run_ceremony(h);
+    let still = |c: &CeremonyTrace| match history {
+        Some(h) => {
+            let mut rec = RunRecord::default();
+            replay_seq(prop, &[h, c], &mut rec).iter().any(|f| f.prop == prop && f.clause == clause)
         }
-        let o = run_ceremony(c);
-        judge_ceremony(c, &o).iter().any(|f| f.prop == prop && f.clause == clause)
+        None => {
+            let o = run_ceremony(c);
+            judge_ceremony(c, &o).iter().any(|f| f.prop == prop && f.clause == clause)
+        }
     };
     let mut cur = t.clone();
     let mut changed = false;
